@@ -63,7 +63,7 @@ def coefficient_tables(P, cv, C, ell, which=('rect', 'alpha')):
         vals = fn(ell)
         for j in range(1, 9):
             code = z3.substitute(lift(vals[j - 1]), (nterm, n))
-            spec = zpoly(K[key][j], n)
+            spec = zpoly(K[key][j], n) * (-1 if name == 'beta' else 1)      # GeodePy's b_j = -beta_j (xi' = xi + sum b_j ...)
             # error budget: 1 micrometre on the ground in total at 30 deg from the central meridian (eta' <= 0.55):
             # eps_j = 1e-6 / (8 * 6.4e6 * cosh(2 j 0.55))
             eps = Fr(1, 10 ** 6) / (8 * 6400000 * Fr(str(round(float(mp.cosh(2 * j * 0.55)), 3))))
@@ -76,7 +76,7 @@ def coefficient_tables(P, cv, C, ell, which=('rect', 'alpha')):
                 invf = (1 / nv + 1) / 2
                 got = fn(C.Ellipsoid(6378137.0, invf))[j - 1]
                 mp.mp.dps = 40
-                want = sum(mp.mpf(c.numerator) / c.denominator * mp.mpf(nv) ** k for k, c in enumerate(K[key][j]))
+                want = sum(mp.mpf(c.numerator) / c.denominator * mp.mpf(nv) ** k for k, c in enumerate(K[key][j])) * (-1 if name == 'beta' else 1)
                 d = abs(mp.mpf(got) - want)
                 if d > mp.mpf(eps.numerator) / eps.denominator * 2:
                     return dict(call='%s_coeff(Ellipsoid(6378137, %r))[%d]' % (name, invf, j - 1), observed=got, expected=float(want), deviation=float(d))
